@@ -1,6 +1,7 @@
 """C10 — sampling follows declared distributions and is shared within a chance infoset."""
 import e1
 import facts
+import invcdf
 import parallel
 import q
 import sampling
@@ -18,12 +19,16 @@ the draw-once typestate and the reset-per-pass rules shared with C07; (5) shared
 sampled traversal selects a child, the table entry consulted is indexed by that node's own infoset
 and the child is node.outcomes[sample()] / node.actions[sample()] of the same node; (6) the alias
 table is built from the infoset's declared weights (probs()), the action sampler from the current
-strategy `strat` (not cum_strat / cum_regret, all Box<[f64]>). Not decided: that Multinomial::sample
-returns k exactly on the k-th cumulative interval (a numeric loop) and rand_distr's alias method.
+strategy `strat` (not cum_strat / cum_regret, all Box<[f64]>); (7) interval clause — the categorical
+sampler, when it has the linear-scan shape (one forward scan over the weights, scalar state updated
+by +-w, one comparison), is interpreted abstractly over linear forms in {u, S, w}: it must continue past
+weight j exactly while u lies beyond the j-th cumulative bound and return the number of weights
+passed (reversed comparison, off-by-one, reverse scan, wrong counter are violations; any other shape
+is reported not-proved, never an alarm). Not decided: rand_distr's alias method; open/closed interval ends.
 """
 ASSUMPTIONS = ['rand_distr::WeightedAliasIndex samples proportionally to its weights (third-party contract)',
                'rand::thread_rng is the only entropy source linked (getrandom is reached only through it)']
-NOT_DECIDED = ['inverse-CDF interval clause of the categorical sampler', 'correctness of rand_distr']
+NOT_DECIDED = ['closedness of the interval ends (measure zero)', 'categorical samplers that are not linear scans (reported not-proved)', 'correctness of rand_distr']
 
 
 DRAWS = {'thread_rng', 'sample', 'gen', 'gen_range', 'gen_bool', 'gen_ratio', 'next_u32', 'next_u64', 'fill_bytes', 'try_fill_bytes', 'fill', 'sample_iter', 'random', 'shuffle', 'choose', 'from_entropy'}
@@ -90,3 +95,4 @@ def run(ctx):
     sampling.pass_structure(ctx, 'C10')
     sampling.index_provenance(ctx, 'C10')
     sampling.distributions(ctx, 'C10')
+    invcdf.sampler_form(ctx, 'C10')
